@@ -30,6 +30,7 @@ func runC02(c *Ctx) {
 	runLiveSettings(c, "C02-LIVE")
 	runAllElems(c, "C02-ALLELEMS")
 	runMissingReach(c, "C02-MISSING-ALL")
+	runReqDescend(c, "C02-REQDESCEND")
 	importRules(c, "C16", runC16, "C02-RULESRC", "the rules evaluated for a field are the tag rules or the override that applies to that object: unscoped overrides only for the outermost object (rules C16-SCOPE, C16-REPLACE)", 2, ruleIn("C16-SCOPE", "C16-REPLACE"))
 	importRules(c, "C03", runC03, "C02-REQUIRED", "a violated 'required' is reported: for every kind and every combination of zero value / empty collection the built-in required of each walker writes its clause exactly when the value is zero or an empty slice/array/map (rule C03-REQ) — a kind whose zero value is not recognised yields no clause although the rule is violated", 4, ruleIn("C03-REQ"))
 	importRules(c, "C03", runC03Seen, "C02-MISSING-ONCE", "a key present in the input is reported by its own rules only: the missing-key reporter skips every key seen in the input, and every iteration records its key (rule C03-SEEN) — otherwise a bare key is reported twice", 3, nil)
